@@ -191,7 +191,7 @@ example : ∃ p evs, Valid Proc.init demoOps p evs := valid_of_validB (by decide
 /-- `nothing_after_close` is not vacuous: the demo history is panic-free and closes channel 0. -/
 example : (run Proc.init demoOps).isSome = true := by decide +kernel
 
-/-- hypotheses of `join_snapshot_complete_partial` hold in a non-trivial reachable state -/
+/-- a non-trivial reachable state in which a join succeeds -/
 example : (((run Proc.init (demoOps.take 4)).map (·.1)).getD Proc.init).sas = [(1, 3)] := by decide +kernel
 example : ((run Proc.init (demoOps.take 4)).bind (fun r => step r.1 (.join 0 1))).isSome = true := by decide +kernel
 
